@@ -14,6 +14,9 @@ import PamsLemmas.AccountLemmas
 import PamsProps.C01
 import PamsProps.C03
 import PamsProps.C04
+import PamsProps.C05
+import PamsProps.C11
+import PamsProps.C16
 
 namespace Pams
 
@@ -172,5 +175,112 @@ theorem sim_fills_within_limits (po : Nat → PriceOps P) (ms : Markets) (price 
   exact ⟨pre, fs, hmem, fun g hg => h1 g hg f hmem, b, hb, s, hs, hrest⟩
 
 end C01
+
+/-! ### C09 / C16 — the execution gate, end to end -/
+namespace C09
+
+/-- **No trade in a session without order execution**: whatever agents submit in a session
+configured with `withOrderExecution = false`, as long as no handler switches execution on, no fill
+is written for any market, no matching round is run and the session flag is still off at the end. -/
+theorem sim_session_without_execution (po : Nat → PriceOps P) (ms : Markets) (k : Nat) (cfg : SessionCfg)
+    (start : Nat) (s : State P) (tapes : List (StepTape P)) (hx : cfg.execution = false)
+    (hr : ∀ tp ∈ tapes, tp.NoResume) :
+    (∀ x ∈ (runSession po ms k cfg start s tapes).recs, ∀ f, x.2 ≠ Rec.fill f) ∧
+    (∀ x ∈ (runSession po ms k cfg start s tapes).ops, x.2 ≠ Op.exec) ∧
+    (runSession po ms k cfg start s tapes).out.flag = false := by
+  have h := runSession_quiet po ms k cfg start s tapes hx hr
+  refine ⟨?_, h.2.2.2, h.2.1⟩
+  intro x hx' f hf
+  have := h.1 x hx'
+  rw [hf] at this
+  simp [isFill] at this
+
+/-- … and hence every order of every market keeps its whole volume through such a session: the
+filled volume computed from the session's records is zero -/
+theorem sim_session_without_execution_filled (po : Nat → PriceOps P) (ms : Markets) (k : Nat)
+    (cfg : SessionCfg) (start : Nat) (s : State P) (tapes : List (StepTape P)) (hx : cfg.execution = false)
+    (hr : ∀ tp ∈ tapes, tp.NoResume) (mk id : Nat) :
+    filledIn id (recsFor mk (runSession po ms k cfg start s tapes).recs) = 0 := by
+  have h := (sim_session_without_execution po ms k cfg start s tapes hx hr).1
+  generalize (runSession po ms k cfg start s tapes).recs = recs at h ⊢
+  induction recs with
+  | nil => rfl
+  | cons x recs ih =>
+    obtain ⟨m, r⟩ := x
+    have hr' := h (m, r) (by simp)
+    have ih' := ih (fun y hy => h y (by simp [hy]))
+    rw [recsFor_cons]
+    split
+    · cases r with
+      | fill f => exact absurd rfl (hr' f)
+      | order l => simpa [filledIn] using ih'
+      | cancel l => simpa [filledIn] using ih'
+      | expiry l => simpa [filledIn] using ih'
+    · exact ih'
+
+end C09
+
+namespace C16
+
+/-- **Every fill of every simulation was produced while its market was running**: the fill belongs
+to a matching round on a state, reachable by the market operations of some prefix of the run, in
+which `running = true`.  A halted market therefore records no fill until it is switched on again. -/
+theorem sim_fills_only_while_running (po : Nat → PriceOps P) (ms : Markets) (price : Nat → P)
+    (fund0 : Nat → Option P) (cfgs : List SessionCfg) (tapes : List (List (StepTape P)))
+    (k : Nat) (f : Fill P) (hf : Rec.fill f ∈ recsFor k (Sim.run po ms price fund0 cfgs tapes).recs) :
+    ∃ pre suf, opsFor k (Sim.run po ms price fund0 cfgs tapes).ops = pre ++ Op.exec :: suf ∧
+      ((Market.init (po k) (price k) (fund0 k)).runOps (po k) pre).1.running = true := by
+  have h := run_tracks po ms price fund0 cfgs tapes k
+  have hf' : Rec.fill f ∈ ((Market.init (po k) (price k) (fund0 k)).runOps (po k)
+      (opsFor k (Sim.run po ms price fund0 cfgs tapes).ops)).2 := by rw [h]; exact hf
+  obtain ⟨pre, suf, m', fs, hos, he, hmem⟩ := C01.fill_origin (po k) _ _ f hf'
+  exact ⟨pre, suf, hos, fills_only_running (po k) _ m' fs he (List.ne_nil_of_mem hmem)⟩
+
+end C16
+
+/-! ### C05 / C11 — who is debited, credited and notified is who the matching engine paired -/
+namespace C11
+
+theorem rfills_parties (q : SReq P) (base i : Nat) (fs : List (Fill P)) :
+    (rfills q base i fs).map (fun r => (r.buyer, r.seller)) = fs.map (fun f => (f.buyAgent, f.sellAgent)) ∧
+    (rfills q base i fs).map (·.ref) = (List.range fs.length).map (fun j => base + i + j) := by
+  induction fs generalizing i with
+  | nil => simp [rfills]
+  | cons f fs ih =>
+    have := ih (i + 1)
+    simp only [rfills, List.map_cons, this.1, List.length_cons, List.range_succ_eq_map, List.map_map]
+    refine ⟨trivial, ?_⟩
+    rw [this.2]
+    simp only [List.map_cons, Nat.add_zero, List.map_map, List.cons.injEq, true_and]
+    apply List.map_congr_left
+    intro j _
+    simp only [Function.comp]
+    omega
+
+/-- In the closed loop, a request accepted while execution is on is followed by exactly one round on
+its market; the ledger event of that round lists one reference per fill the matching engine
+produced, in order (fresh consecutive numbers), and the agents notified are, fill by fill, the
+buyer and the seller the engine paired — the scheduler adds and drops nobody. -/
+theorem sim_round_parties (po : Nat → PriceOps P) (t : Nat) (s s1 : State P) (q : SReq P)
+    (r1 : List (MRec P)) (o1 : List (MOp P)) (m' : Market P) (fs : List (Fill P))
+    (hm : marketCall po s q = some (s1, r1, o1))
+    (he : (s1.mkt q.market).execution (po q.market) = .ok (m', fs)) :
+    ∃ rf : List RFill,
+      callbacks (Sim.processRequest po t s true q).out.tr =
+        (if q.isCancel then [Ev.cbCanceled q.owner q.ref] else [Ev.cbSubmitted q.owner q.ref]) ++ fillCallbacks rf ∧
+      rf.map (fun r => (r.buyer, r.seller)) = fs.map (fun f => (f.buyAgent, f.sellAgent)) ∧
+      rf.map (·.ref) = (List.range fs.length).map (fun j => s1.nfill + j) ∧
+      (Sim.processRequest po t s true q).recs = r1 ++ fs.map (fun f => (q.market, Rec.fill f)) := by
+  refine ⟨rfills q s1.nfill 0 fs, ?_, (rfills_parties q s1.nfill 0 fs).1, ?_, ?_⟩
+  · unfold Sim.processRequest
+    simp only
+    rw [request_callbacks]
+    unfold resolve roundCall
+    simp [hm, he, baseRequest]
+  · simpa using (rfills_parties q s1.nfill 0 fs).2
+  · unfold Sim.processRequest resolve roundCall
+    simp [hm, he]
+
+end C11
 
 end Pams
